@@ -706,6 +706,7 @@ func (pr *Prover) opaque(v ssa.Value) Lin {
 	}
 	if ld, ok := v.(*ssa.UnOp); ok && ld.Op == token.MUL {
 		pr.noteTableLoad(a, ld)
+		pr.noteStructTableLoad(a, ld)
 	}
 	if prm, ok := v.(*ssa.Parameter); ok && pr.fn.Parent() != nil {
 		if lo, hi, ok := pr.p.closureParamRange(pr.fn, paramIndex(pr.fn, prm)); ok {
@@ -850,6 +851,18 @@ func (pr *Prover) linRaw(v ssa.Value) Lin {
 				if b := x.Type().Underlying().(*types.Basic); b.Info()&types.IsUnsigned != 0 {
 					a := pr.opaque(v)
 					pr.atomRange(pr.key(v), 0, float64(k-1))
+					return a
+				}
+			}
+		case token.SHR:
+			// unsigned x >> k: result in [0, hi(x) >> k]
+			if k, ok := constInt(x.Y); ok && k >= 0 && k < 63 {
+				if b, isB := x.X.Type().Underlying().(*types.Basic); isB && b.Info()&types.IsUnsigned != 0 {
+					a := pr.opaque(v)
+					_, hi := pr.rangeOfLin(pr.lin(x.X))
+					if hi >= 0 && !math.IsInf(hi, 0) && hi < 1e18 {
+						pr.atomRange(pr.key(v), 0, float64(int64(hi)>>uint(k)))
+					}
 					return a
 				}
 			}
@@ -1637,11 +1650,13 @@ func (pr *Prover) assumeContracts() {
 		}
 	}
 	// K1: fill family — parameters ([]byte, int [, Ident]) result int: i >= 0
-	if isFillFamily(fn) {
-		for _, prm := range fn.Params {
-			if b, ok := prm.Type().Underlying().(*types.Basic); ok && b.Kind() == types.Int {
-				pr.assume = append(pr.assume, pr.lin(prm))
-			}
+	if k := fillBufIndex(fn); k >= 0 {
+		base := 0
+		if fn.Signature.Recv() != nil {
+			base = 1
+		}
+		if base+k+1 < len(fn.Params) {
+			pr.assume = append(pr.assume, pr.lin(fn.Params[base+k+1]))
 		}
 	}
 }
@@ -1651,9 +1666,10 @@ func (pr *Prover) assumeContracts() {
 func isFillFamily(fn *ssa.Function) bool { return fillBufIndex(fn) >= 0 }
 
 // fillBufIndex: the position, among the non-receiver parameters, of the buffer parameter of a fill-family
-// function: parameters ([]byte, int) or ([]byte, int, <byte-sized>) and result int.  Methods and closures have
-// the buffer first; a plain helper function may take the values to emit before it
-// (func fillX(v T, b []byte, i int) int).  -1 if fn is not of the family.
+// function: result int and a []byte parameter immediately followed by an int parameter (the offset); the values
+// to emit may come as receiver, before the buffer or after the offset
+// (func (v T) fill(b, i), func fillX(v T, b, i), func (p *P) header(b, i, n int), func fillLen(b, i, f func(..))).
+// -1 if fn is not of the family.
 func fillBufIndex(fn *ssa.Function) int {
 	sig := fn.Signature
 	if sig.Results().Len() != 1 {
@@ -1663,33 +1679,14 @@ func fillBufIndex(fn *ssa.Function) int {
 		return -1
 	}
 	ps := sig.Params()
-	shape := func(k int) bool {
-		rest := ps.Len() - k
-		if rest != 2 && rest != 3 {
-			return false
-		}
+	for k := 0; k+1 < ps.Len(); k++ {
 		if !isByteSlice(ps.At(k).Type()) {
-			return false
+			continue
 		}
-		if b, ok := ps.At(k + 1).Type().Underlying().(*types.Basic); !ok || b.Kind() != types.Int {
-			return false
+		if b, ok := ps.At(k + 1).Type().Underlying().(*types.Basic); ok && b.Kind() == types.Int {
+			return k
 		}
-		if rest == 3 {
-			if b, ok := ps.At(k + 2).Type().Underlying().(*types.Basic); !ok || b.Kind() != types.Uint8 {
-				return false
-			}
-		}
-		return true
-	}
-	if shape(0) {
-		return 0
-	}
-	if sig.Recv() == nil && fn.Parent() == nil {
-		for k := 1; k < ps.Len()-1; k++ {
-			if shape(k) {
-				return k
-			}
-		}
+		return -1
 	}
 	return -1
 }
